@@ -11,7 +11,8 @@
    `_partial` marks the statements about the float-typed helpers: they are proved for the model over dyadic rationals, and the
    step from IEEE double arithmetic to that model is checked bit-exactly but not proved.  `_refuted` is kept only for what the
    CURRENT code still does (FixedPoint.mult reads the top bit of an unsigned format as a sign). *)
-From V Require Import Base.Bits Gen.Helpers Spec.C12 Model.HelperInt Model.FPNum Model.FPHelper Proofs.C12.Int Proofs.C12.FPNum Proofs.C12.Decode Proofs.C12.Convert Proofs.C12.FPH Proofs.C12.OfFloat Proofs.C12.Encode.
+From V Require Import Base.Bits Gen.Helpers Spec.C12 Model.HelperInt Model.FPNum Model.FPHelper Proofs.C12.Int Proofs.C12.FPNum Proofs.C12.Decode Proofs.C12.Convert Proofs.C12.FPH Proofs.C12.OfFloat Proofs.C12.Encode Proofs.C12.Unary.
+From Coq Require Import Qabs.
 Open Scope Z_scope.
 
 (* ---------------------------------------------------------------- two's complement (regenerated code) *)
@@ -177,6 +178,77 @@ Example C12_fpnum_reduce_exponent_ex :
   FPNum_reduceExponentPrecision (mkfp 1 (-130) 3 2 false false) 8 = mkfp 1 (-126) 3 32 false false /\
   f_inf (FPNum_reduceExponentPrecision (mkfp 1 128 1 1 false false) 8) = true.
 Proof. vm_compute. split; reflexivity. Qed.
+
+(* ---------------------------------------------------------------- FPNum.neg / abs / div2 / reducePrecision[WithRounding] *)
+(* neg / abs / div2 build FPNum(s', e, m, p') and are exact on the denoted rational.  Guard = what the constructor needs:
+   a finite, non-NaN number with m >= 0 and p > 0 (adjust_semp loops on anything else); abs also needs the sign in {1,-1}
+   (it REPLACES s by 1), div2 needs n >= 0 (Python raises on a negative shift count).  Spec operators xabs / xdiv2
+   (value / 2^n) are in Proofs/C12/Unary.v next to xneg of Spec/C12.v.  wf is preserved (last conjuncts). *)
+Theorem C12_fpnum_neg_exact : forall a, f_inf a = false -> f_nan a = false -> 0 <= f_m a /\ 0 < f_p a ->
+  let r := FPNum_neg a in
+  xeq (xval r) (xneg (xval a)) /\ f_inf r = false /\ f_nan r = false /\ f_s r = - f_s a /\ (wf a -> wf r).
+Proof. exact neg_exact. Qed.
+Theorem C12_fpnum_abs_exact : forall a, f_inf a = false -> f_nan a = false -> 0 <= f_m a /\ 0 < f_p a -> sign_ok a ->
+  let r := FPNum_abs a in
+  xeq (xval r) (xabs (xval a)) /\ f_inf r = false /\ f_nan r = false /\ f_s r = 1 /\ (wf a -> wf r).
+Proof. exact abs_exact. Qed.
+Theorem C12_fpnum_div2_exact : forall a n, 0 <= n -> f_inf a = false -> f_nan a = false -> 0 <= f_m a /\ 0 < f_p a ->
+  let r := FPNum_div2 a n in
+  xeq (xval r) (xdiv2 n (xval a)) /\ f_inf r = false /\ f_nan r = false /\ f_s r = f_s a /\ (wf a -> wf r).
+Proof. exact div2_exact. Qed.
+(* the specials in the representation the constructor understands (p = 0; infinity iff m = 0, NaN otherwise) are mapped correctly
+   too; an infinity that is only FLAGGED (reduceExponentPrecision keeps p <> 0) is outside every guard: see the Example below *)
+Theorem C12_fpnum_unary_special : forall a n, canon_special a -> sign_ok a -> 0 <= n ->
+  xval (FPNum_neg a) = xneg (xval a) /\ xval (FPNum_abs a) = xabs (xval a) /\ xval (FPNum_div2 a n) = xdiv2 n (xval a).
+Proof. exact unary_special. Qed.
+
+(* reducePrecision(prec) on m / 2^k: the significand is truncated toward zero to prec fraction bits (D = 2^max(0, k - prec) is the
+   factor by which p shrinks; m' = floor(m / D)); nothing changes when k <= prec.  In values: s * trunc_bits prec (m/p) * 2^e
+   (trunc_bits prec q = floor(q * 2^prec) / 2^prec), never larger in magnitude, error < 2^(e - prec) = one unit of the new
+   precision.  Guards: prec >= 0 (1 << prec), m >= 0, p a power of two (both part of wf; with another p the loop still ends but
+   the result is not on the 2^-prec grid).  Flags, sign and exponent are untouched, so it is stated for any flags. *)
+Theorem C12_fpnum_reduce_precision : forall x prec, 0 <= prec -> 0 <= f_m x -> pow2 (f_p x) ->
+  let y := FPNum_reducePrecision x prec in
+  let D := f_p x / f_p y in
+  f_s y = f_s x /\ f_e y = f_e x /\ f_inf y = f_inf x /\ f_nan y = f_nan x /\
+  f_p y = Z.min (f_p x) (2 ^ prec) /\ pow2 (f_p y) /\ f_p x = f_p y * D /\
+  f_m y = f_m x / D /\ 0 <= f_m y /\
+  f_m y * f_p x <= f_m x * f_p y < (f_m y + 1) * f_p x /\
+  (fval y == inject_Z (f_s x) * trunc_bits prec (inject_Z (f_m x) / inject_Z (f_p x)) * two_pow (f_e x))%Q /\
+  (sign_ok x -> (Qabs (fval y) <= Qabs (fval x))%Q /\ (Qabs (fval x - fval y) < two_pow (f_e x - prec))%Q).
+Proof. exact reduce_precision_spec. Qed.
+
+(* reducePrecisionWithRounding(prec): the dropped bits r = m mod D decide; m' = floor(m / D) + 1 iff r > D/2, i.e. round to nearest
+   with TIES TOWARD ZERO (not the IEEE ties-to-even); error <= half a unit of the new precision.  m' may reach 2p' (the code does
+   not renormalise).  Same guards. *)
+Theorem C12_fpnum_reduce_precision_rounding : forall x prec, 0 <= prec -> 0 <= f_m x -> pow2 (f_p x) ->
+  let y := FPNum_reducePrecisionWithRounding x prec in
+  let D := f_p x / f_p y in
+  f_s y = f_s x /\ f_e y = f_e x /\ f_inf y = f_inf x /\ f_nan y = f_nan x /\
+  f_p y = Z.min (f_p x) (2 ^ prec) /\ pow2 (f_p y) /\ f_p x = f_p y * D /\
+  f_m y = f_m x / D + (if 2 * (f_m x mod D) >? D then 1 else 0) /\ 0 <= f_m y /\
+  2 * Z.abs (f_m x - f_m y * D) <= D /\
+  (sign_ok x -> (Qabs (fval x - fval y) <= two_pow (f_e x - prec - 1))%Q).
+Proof. exact reduce_precision_rounding_spec. Qed.
+
+(* hypotheses satisfiable: a = -13 = (-1, 3, 13, 8) is wf and finite; reducePrecision(2) gives -12; rounding 13/8, 15/8, 5/4 to one
+   fraction bit gives 3/2 (down), 4/2 (up), 2/2 (tie: down); -inf = (-1,0,0,0) is a canonical special *)
+Example C12_fpnum_unary_ex :
+  let a := mkfp (-1) 3 13 8 false false in
+  wf a /\ (0 <= f_m a /\ 0 < f_p a) /\
+  FPNum_neg a = mkfp 1 3 13 8 false false /\ FPNum_abs a = mkfp 1 3 13 8 false false /\
+  FPNum_div2 a 3 = mkfp (-1) 0 104 64 false false /\
+  FPNum_reducePrecision a 2 = mkfp (-1) 3 6 4 false false /\
+  FPNum_reducePrecisionWithRounding a 1 = mkfp (-1) 3 3 2 false false /\
+  FPNum_reducePrecisionWithRounding (mkfp (-1) 3 15 8 false false) 1 = mkfp (-1) 3 4 2 false false /\
+  FPNum_reducePrecisionWithRounding (mkfp (-1) 3 5 4 false false) 1 = mkfp (-1) 3 2 2 false false /\
+  canon_special (mkfp (-1) 0 0 0 true false) /\ xval (FPNum_neg (mkfp (-1) 0 0 0 true false)) = XInf false.
+Proof. exact unary_ex. Qed.
+(* outside the guard: reduceExponentPrecision flags +inf on (1, 200, 1, 1) and keeps p = 1; neg of that is the finite -2^200 *)
+Example C12_fpnum_neg_flagged_infinity_ex :
+  let x := FPNum_reduceExponentPrecision (mkfp 1 200 1 1 false false) 8 in
+  xval x = XInf false /\ f_p x = 1 /\ f_inf (FPNum_neg x) = false /\ FPNum_neg x = mkfp (-1) 200 1 1 false false.
+Proof. exact neg_flagged_infinity. Qed.
 
 (* ---------------------------------------------------------------- FPNum(v, fmt) denotes the IEEE-754 value of the pattern *)
 (* every integer v (only its low 1+ew+mw bits matter): zeros, subnormals, normals, infinities, NaNs; sign of zero included *)
@@ -365,6 +437,12 @@ Print Assumptions C12_fpnum_compare_total.
 Print Assumptions C12_fpnum_compare_exact.
 Print Assumptions C12_fpnum_compare_nan.
 Print Assumptions C12_fpnum_reduce_exponent.
+Print Assumptions C12_fpnum_neg_exact.
+Print Assumptions C12_fpnum_abs_exact.
+Print Assumptions C12_fpnum_div2_exact.
+Print Assumptions C12_fpnum_unary_special.
+Print Assumptions C12_fpnum_reduce_precision.
+Print Assumptions C12_fpnum_reduce_precision_rounding.
 Print Assumptions C12_fpnum_decode_sp.
 Print Assumptions C12_fpnum_decode_dp.
 Print Assumptions C12_fpnum_decode_any_format.
